@@ -163,6 +163,10 @@ class Check:
 
     # -- paths
     def spec(self, name):
+        if os.path.isabs(name):
+            return name
+        if name.startswith("lib/"):
+            return os.path.join(SPECS, name)
         return os.path.join(SPECS, self.module, name)
 
     def sub(self, name):
@@ -193,7 +197,7 @@ class Check:
         seqs = r.printed_json()
         self.states += r.distinct
         self.transitions += r.generated
-        self.parts.append({"step": "enumerate", "module": tla, "constants": constants, "sequences": len(seqs),
+        self.parts.append({"step": "enumerate", "module": tla, "constants": {k: (sorted(v) if isinstance(v, (set, frozenset)) else v) for k, v in constants.items()}, "sequences": len(seqs),
                            "distinct_states": r.distinct, "wall_s": round(r.wall, 1), "exhaustive": True})
         log("[%s] enumerate %s %s: %d stimulus sequences, %.1fs" % (self.pid, tla, constants, len(seqs), r.wall))
         return seqs
@@ -216,7 +220,7 @@ class Check:
     # -- step 2: real code
     def overlay(self, mapping):
         """mapping: path under /repo -> path under /verif/harness. vtrace is always added."""
-        repl = {os.path.join(REPO, "internal/vtrace/vtrace.go"): os.path.join(HARNESS, "vtrace/vtrace.go")}
+        repl = {os.path.join(REPO, "internal/vtrace", os.path.basename(f)): f for f in glob.glob(os.path.join(HARNESS, "vtrace", "*.go"))}
         for k, v in mapping.items():
             repl[os.path.join(REPO, k)] = os.path.join(HARNESS, v)
         for v in repl.values():
